@@ -416,6 +416,10 @@ class Interp(object):
         from odml import validation as V
         val = V.Validation(x, validate=False, reset=True)
         klass = "property" if rule.startswith("property") else "section"
+        if rule == "section_unique_ids":
+            klass = "odML" if kind_of(x) == "doc" else "section"
+        elif rule == "property_unique_ids":
+            klass = "section"
         val.register_custom_handler(klass, getattr(V, rule))
         val.run_validation()
         first = self._issues(val.errors)
@@ -459,8 +463,18 @@ class Interp(object):
         else:
             val.run_validation()
             rep = None
-        return {"issues": self._issues(val.errors), "report": rep,
-                "empty_at_start": empty_at_start}
+        first = self._issues(val.errors)
+
+        # a rule added to an instance that has already run is applied from the next run on
+        def marker2(obj):
+            yield ValidationError(obj, "simkit-marker-2", "warning", IssueID.custom_validation)
+        val.register_custom_handler(klass, marker2)
+        val.run_validation()
+        second = self._issues(val.errors)
+        late_ok = sorted(i[:3] for i in second if i[3] == "simkit-marker-2") == \
+            sorted(i[:3] for i in first if i[3] == "simkit-marker")
+        return {"issues": first, "report": rep, "empty_at_start": empty_at_start,
+                "late_rule_applied": late_ok}
 
     # -- durable store ------------------------------------------------------------------------------
     def _path(self, name, backend):
